@@ -439,7 +439,8 @@ every line number `0..n-1` exactly once. -/
 theorem gtl_partition (n : Nat) (nb : Nat → List Nat) (hnb : ∀ i, ∀ j ∈ nb i, j < n)
     (H : (∀ i, i < n → i ∈ nb i) ∨ (∀ i, nb i = [])) :
     ((gtlYield (gtlDict nb [] (List.range n)) [] (List.range n)).flatMap (·.members)).Perm (List.range n)
-    ∧ ∀ t ∈ gtlYield (gtlDict nb [] (List.range n)) [] (List.range n), t.members ≠ [] ∧ t.bid < n := by
+    ∧ (∀ t ∈ gtlYield (gtlDict nb [] (List.range n)) [] (List.range n), t.members ≠ [] ∧ t.bid < n)
+    ∧ (gtlYield (gtlDict nb [] (List.range n)) [] (List.range n)).Pairwise (fun a b => a.bid ≠ b.bid) := by
   have h0 : RunInv n nb [] [] := by
     refine ⟨⟨by simp [keys], ?_, ?_, ?_, ?_⟩, by simp, ?_, by simp [keys], by simp [keys]⟩ <;> simp
   have hrun := gtlDict_run hnb H (List.range n) [] [] h0 (fun i hi => List.mem_range.mp hi)
@@ -447,7 +448,7 @@ theorem gtl_partition (n : Nat) (nb : Nat → List Nat) (hnb : ∀ i, ∀ j ∈ 
   simp only [List.append_nil] at hrun
   set d := gtlDict nb [] (List.range n) with hd
   have hy := gtlYield_spec hrun.p (List.range n) []
-  refine ⟨?_, ?_⟩
+  refine ⟨?_, ?_, hy.2.1⟩
   · rw [List.perm_ext_iff_of_nodup ?_ List.nodup_range]
     · intro j
       simp only [List.mem_flatMap, List.mem_range]
